@@ -12,6 +12,7 @@ from fractions import Fraction
 from ..core import frac
 from . import _c08ext as _ext
 from . import _c08lab as _lab   # round 5: re_label pattern / from_label
+from . import _c08snf as _snf   # round 5c: sniff patterns text / bed
 
 LEVEL = "proof"
 RULE = ("random region tables (1..4 dozen rows; chromosome names 1..22/X/Y/M/MT, 3-digit numbers, alt/random/Un/hap "
@@ -821,6 +822,7 @@ def corpus():
                   "in": {"wfmt": "tab", "rfmt": "tab", "cna": True, "t0": {"names": ["gene", "log2"], "rows": rows}}})
     cases.extend(_ext.corpus(_table))
     cases.extend(_lab.corpus())
+    cases.extend(_snf.corpus())
     return cases
 
 
@@ -845,6 +847,7 @@ def gen_cases(rng, tier):
             cases.append(_malformed(rng))
     cases.extend(_ext.gen_cases(rng, tier, _table))   # round 4: after everything else, so earlier case streams are unchanged
     cases.extend(_lab.gen_cases(rng, tier))   # round 5: likewise last
+    cases.extend(_snf.gen_cases(rng, tier))   # round 5c: likewise last
     return cases
 
 
@@ -1003,6 +1006,8 @@ def run_impl(case):
     from skgenome import tabio
 
     op, i = case["op"], case["in"]
+    if op in _snf.EXT_OPS:
+        return _snf.run_impl(case)
     if op in _lab.EXT_OPS:
         return _lab.run_impl(case)
     if op in _ext.EXT_OPS:
@@ -1115,6 +1120,8 @@ def _is_err(impl):
 
 def to_line(case, impl):
     op, i = case["op"], case["in"]
+    if op in _snf.EXT_OPS:
+        return _snf.to_line(case, impl, _is_err)
     if op in _lab.EXT_OPS:
         return _lab.to_line(case, impl, _is_err)
     if op in _ext.EXT_OPS:
@@ -1231,6 +1238,8 @@ def _outside(msg):
 
 def judge(case, impl, resp):
     op, tag = case["op"], case.get("tag", "")
+    if op in _snf.EXT_OPS:
+        return _snf.judge(case, impl, resp, _is_err)
     if op in _lab.EXT_OPS:
         return _lab.judge(case, impl, resp, _is_err)
     if op in _ext.EXT_OPS:
@@ -1322,6 +1331,8 @@ def judge(case, impl, resp):
 
 def nontrivial(case, impl, resp):
     i = case["in"]
+    if case["op"] in _snf.EXT_OPS:
+        return _snf.nontrivial(case, impl, resp)
     if case["op"] in _lab.EXT_OPS:
         return _lab.nontrivial(case, impl, resp)
     if case["op"] in _ext.EXT_OPS:
@@ -1341,6 +1352,9 @@ def nontrivial(case, impl, resp):
 
 def shrink(case):
     op, i = case["op"], case["in"]
+    if op in _snf.EXT_OPS:
+        yield from _snf.shrink(case)
+        return
     if op in _lab.EXT_OPS:
         yield from _lab.shrink(case)
         return
